@@ -75,9 +75,9 @@ func (in *c17inst) Key() string {
 	var sb strings.Builder
 	sb.WriteString(lib.Canon(in.created) + lib.Canon(in.cleared))
 	for _, l := range []string{"A", "B"} {
-		sb.WriteString("|" + in.ref.Snapshot(l) + "|" + in.refOn.Snapshot(l))
+		sb.WriteString("|" + in.ref.KeySnapshot(l) + "|" + in.refOn.KeySnapshot(l))
 		for _, s := range in.worlds {
-			sb.WriteString("|" + s.w.Snapshot(l))
+			sb.WriteString("|" + s.w.KeySnapshot(l))
 			sb.WriteString(fmt.Sprint(s.w.sys.GetCachedLocations(s.w.ctx)))
 		}
 	}
